@@ -15,11 +15,14 @@ def _fin(lo, hi):
 
 
 @st.composite
-def interval(draw, extreme=False, exact_friendly=False):
+def interval(draw, extreme=False, exact_friendly=False, bigint=False):
     """One [lo, hi] with finite lo < hi, from a mixture of classes."""
     kinds = ["unit", "int", "neg", "shift", "narrow", "wide", "float"]
     if extreme:
         kinds.append("extreme")
+        kinds.append("ulps")
+    if bigint:
+        kinds.append("bigint")
     kind = draw(st.sampled_from(kinds))
     if kind == "unit":
         return [0, 1] if draw(st.booleans()) else [0.0, 1.0]
@@ -38,6 +41,15 @@ def interval(draw, extreme=False, exact_friendly=False):
         return [lo, lo + w]
     if kind == "wide":
         return [-draw(_fin(1.0, 1e6)), draw(_fin(1.0, 1e6))]
+    if kind == "ulps":
+        # a valid, non-degenerate interval that is only a few ulps wide: cells collapse to single doubles
+        lo = draw(st.sampled_from([1.0, 0.5, -3.0, 1000.0, 0.1]))
+        k = draw(st.sampled_from([2, 3, 8, 64, 1024, 4096]))
+        return [lo, lo + k * math.ulp(lo)]
+    if kind == "bigint":
+        # Python ints beyond 2^53 that no double represents exactly (e.g. nanosecond time stamps)
+        lo = draw(st.sampled_from([10 ** 18, 1_700_000_000_000_000_000, -(10 ** 17), 2 ** 60])) + draw(st.integers(1, 999))
+        return [lo, lo + draw(st.sampled_from([3_600_000_000_001, 10 ** 9 + 7, 2 ** 40 + 1]))]
     if kind == "extreme":
         m = draw(st.sampled_from([1e30, 1e100, 1e-30, 1e-100]))
         lo = draw(_fin(-1.0, 1.0)) * m
@@ -51,11 +63,11 @@ def interval(draw, extreme=False, exact_friendly=False):
 
 
 @st.composite
-def domains(draw, max_d=3, extreme=False, min_d=1):
+def domains(draw, max_d=3, extreme=False, min_d=1, bigint=False):
     d = draw(st.integers(min_d, max_d))
     if draw(st.integers(0, 3)) == 0:
         return [[0, 1] for _ in range(d)] if draw(st.booleans()) else [[0.0, 1.0] for _ in range(d)]
-    return [draw(interval(extreme=extreme)) for _ in range(d)]
+    return [draw(interval(extreme=extreme, bigint=bigint)) for _ in range(d)]
 
 
 # ------------------------------------------------------------------- partitions
@@ -97,7 +109,7 @@ def rngs(draw, script_prob=0.5, max_len=40):
 # ---------------------------------------------------------------------- rewards
 
 ALL_LAWS = ["const", "noise", "negative", "nonpos_ties", "ties", "large", "alternating", "ramp",
-            "peak", "peakpos", "bump", "neartie"]
+            "peak", "peakpos", "bump", "neartie", "neg_then_zero", "twolevel"]
 
 
 @st.composite
@@ -107,6 +119,12 @@ def rewards(draw, laws=None, d=1, max_over=4, T=100):
     p = {}
     if law == "const":
         p["c"] = draw(st.sampled_from([0.0, 0.5, -1.0, 1.0, 3.25]))
+    if law == "twolevel":
+        p["star"] = [draw(st.floats(0, 1)) for _ in range(d)]
+        p["amp"] = draw(st.sampled_from([0.035, 0.04, 0.03, 0.05, 0.1, 0.02]))
+        p["levels"] = draw(st.sampled_from([2, 2, 3]))
+    if law == "neg_then_zero":
+        p["r0"] = draw(st.integers(1, max(1, T)))
     if law == "neartie":
         p["c"] = draw(st.sampled_from([1.0, -3.0, 1e6, 0.7, -1e-3]))
     if law == "alternating":
